@@ -62,6 +62,19 @@ func sweepOptions() vc.Options {
 // sweep runs the two-pass safety sweep over the given roots.
 func sweep(c *Ctx, roots []*ssa.Function, so *vc.SolveOpts) {
 	opt := sweepOptions()
+	// proved helper contracts the sweep may use at call sites (the helper's own obligations belong to the property
+	// its contract is tagged with): NormalizeNumber returns both numbers in one representation
+	if all, _, err := vc.LoadContracts(repoDir); err == nil {
+		helper := &vc.Contracts{ByFunc: map[string]*vc.Contract{}, Specs: all.Specs, PureMethods: all.PureMethods, PureFuncs: all.PureFuncs, StableStructs: all.StableStructs}
+		for _, n := range []string{"slip.NormalizeNumber", "slip.(*SignedByte).AsFixOrBig", "slip.(*UnsignedByte).AsFixOrBig"} {
+			if ct := all.ByFunc[n]; ct != nil {
+				helper.ByFunc[n] = ct
+			}
+		}
+		helper.Attach(c.P)
+		opt.Contracts = helper
+		c.Assume = append(c.Assume, "the sweep uses the contracts of slip.NormalizeNumber and AsFixOrBig at their call sites (proved under C05)")
+	}
 	// pass A: every function that pass B may inline, standalone
 	inl := vc.InlineClosure(c.P, roots, &opt)
 	optA := opt
